@@ -1,3 +1,1 @@
 package main
-
-func genLocks(ps *pkgs, out string)  {}
